@@ -124,6 +124,19 @@ func c14r2(r *R) {
 		o.Check(e == "crypto/tls.LoadX509KeyPair(p0.certPath, p0.keyPath)#0", "the swapped-in certificate is %s, want tls.LoadX509KeyPair(cw.certPath, cw.keyPath)#0 (certificate path first, key path second)", e)
 		gs := c.guardStrs(site.Block())
 		o.Check(hasGuard(gs, "-(crypto/tls.LoadX509KeyPair(p0.certPath, p0.keyPath)#1 != nil)"), "the swap is not dominated by the load's err == nil edge: a failed or half-written reload would replace the last good pair; guards %v", gs)
+		// every re-read reads: no way through the function avoids the load, and it reports success only after the swap
+		// (a "nothing changed" short-cut on mtime, size or digest keeps the old pair for updates it does not recognise)
+		isLoad := func(i ssa.Instruction) bool { return isCall(i, "crypto/tls.LoadX509KeyPair") }
+		okReturn := func(i ssa.Instruction) bool {
+			ret, ok := i.(*ssa.Return)
+			return ok && len(ret.Results) == 1 && c.Expr(ret.Results[0]) == "nil"
+		}
+		if p := c.escapePath(siteFn, nil, isLoad, okReturn); p != nil {
+			o.Fail("%s can report success without loading the pair from disk: %v", funcName(siteFn), p)
+		}
+		if p := c.escapePath(siteFn, nil, func(i ssa.Instruction) bool { return i == site }, okReturn); p != nil {
+			o.Fail("%s can report success without having swapped in what it loaded: %v", funcName(siteFn), p)
+		}
 		// the error edge returns the error (keeps the previous pointer)
 		eachInstr(siteFn, func(i ssa.Instruction) {
 			if ret, ok := i.(*ssa.Return); ok && hasGuard(c.guardStrs(i.Block()), "+(crypto/tls.LoadX509KeyPair(p0.certPath, p0.keyPath)#1 != nil)") {
